@@ -110,7 +110,7 @@ theorem satsPart_length_pos (f : Flags) (e : Entry) : 0 < (satsPart f e).length 
   · exact encode_length_pos _
 
 theorem parseSats_layout (f : Flags) (e : Entry) (rest : List UInt8)
-    (hv : e.value < 2 ^ 64) (hr : f.sats = true → e.ranges.length % 11 = 0)
+    (hv : f.sats = false → e.value < 2 ^ 64) (hr : f.sats = true → e.ranges.length % 11 = 0)
     (hlen : (satsPart f e ++ rest).length < 2 ^ 64) :
     parseSats f (satsPart f e ++ rest) =
       .ok (if f.sats then .ranges e.ranges else .value e.value, (satsPart f e).length) := by
@@ -118,6 +118,7 @@ theorem parseSats_layout (f : Flags) (e : Entry) (rest : List UInt8)
   cases hs : f.sats with
   | false =>
     simp only [Bool.false_eq_true, if_false]
+    have hv := hv hs
     rw [decode_encode_append _ (by omega)]
     simp [Nat.not_le.mpr hv]
   | true =>
@@ -159,7 +160,7 @@ theorem parseScript_layout (f : Flags) (e : Entry) (pre rest : List UInt8)
     simp [Nat.add_assoc]
 
 theorem parse_layout (f : Flags) (e : Entry)
-    (hv : e.value < 2 ^ 64) (hr : f.sats = true → e.ranges.length % 11 = 0)
+    (hv : f.sats = false → e.value < 2 ^ 64) (hr : f.sats = true → e.ranges.length % 11 = 0)
     (hlen : (layout f e).length < 2 ^ 64) :
     parse f (layout f e) = .ok (view f e) := by
   rw [layout_eq] at hlen ⊢
@@ -212,5 +213,166 @@ theorem parseInscriptionList_encode (l : List (Nat × Nat))
     rw [hdrop2, ih', htake, leVal_leBytes_of_lt _ _ (by
       have : (256 : Nat) ^ 4 = 2 ^ 32 := by decide
       omega)]
+
+
+/-! ### typed sat ranges, total value -/
+
+theorem chunks11_append (b bs : List UInt8) (h : b.length = 11) :
+    chunks11 (b ++ bs) = b :: chunks11 bs := by
+  rw [chunks11]
+  have : ¬ ((b ++ bs).length < 11) := by simp only [List.length_append]; omega
+  simp only [this, dite_false]
+  rw [List.take_left' h, List.drop_left' h]
+
+theorem chunks11_nil : chunks11 [] = [] := by
+  rw [chunks11]; simp
+
+theorem encodeRanges_ok (rs : List (Nat × Nat)) (h : ∀ r ∈ rs, satRangeGuard r) :
+    ∃ bs, encodeRanges rs = .ok bs ∧ bs.length = 11 * rs.length ∧ decodeRanges bs = rs := by
+  induction rs with
+  | nil => exact ⟨[], rfl, rfl, by simp [decodeRanges, chunks11_nil]⟩
+  | cons r rs ih =>
+    obtain ⟨bs, h1, h2, h3⟩ := ih (fun x hx => h x (by simp [hx]))
+    obtain ⟨b, g1, g2, g3⟩ := satRangeStore_ok r (h r (by simp))
+    refine ⟨b ++ bs, ?_, ?_, ?_⟩
+    · simp [encodeRanges, g1, h1]
+    · simp only [List.length_append, List.length_cons, g2, h2]; omega
+    · unfold decodeRanges at h3 ⊢
+      rw [chunks11_append b bs g2, List.map_cons, g3, h3]
+
+def sumLens : List (Nat × Nat) → Nat
+  | [] => 0
+  | r :: rs => (r.2 - r.1) + sumLens rs
+
+theorem sumDeltas_map (cs : List (List UInt8)) (acc : Nat)
+    (h : acc + sumLens (cs.map satRangeLoad) < 2 ^ 64) :
+    sumDeltas acc cs = .ok (acc + sumLens (cs.map satRangeLoad)) := by
+  induction cs generalizing acc with
+  | nil => simp [sumDeltas, sumLens]
+  | cons c cs ih =>
+    simp only [List.map_cons, sumLens] at h
+    simp only [sumDeltas]
+    have : ¬ (2 ^ 64 ≤ acc + ((satRangeLoad c).2 - (satRangeLoad c).1)) := by omega
+    simp only [this, if_false]
+    rw [ih _ (by omega)]
+    simp only [List.map_cons, sumLens]
+    congr 1; omega
+
+theorem sumDeltas_overflow (cs : List (List UInt8)) (acc : Nat)
+    (h : 2 ^ 64 ≤ acc + sumLens (cs.map satRangeLoad)) (hacc : acc < 2 ^ 64) :
+    sumDeltas acc cs = .panic "add-overflow" := by
+  induction cs generalizing acc with
+  | nil => simp [sumLens] at h; omega
+  | cons c cs ih =>
+    simp only [List.map_cons, sumLens] at h
+    simp only [sumDeltas]
+    split
+    · rfl
+    · exact ih _ (by omega) (by omega)
+
+/-! ### rune balances -/
+
+def balanceOk (x : (Nat × Nat) × Nat) : Prop := x.1.1 < 2 ^ 64 ∧ x.1.2 < 2 ^ 32 ∧ x.2 < 2 ^ 128
+
+theorem decodeBalance_encode (x : (Nat × Nat) × Nat) (h : balanceOk x) (rest : List UInt8) :
+    decodeBalance (encodeBalance x ++ rest) = .ok (x, (encodeBalance x).length) := by
+  obtain ⟨h1, h2, h3⟩ := h
+  obtain ⟨⟨b, t⟩, a⟩ := x
+  simp only at h1 h2 h3
+  unfold decodeBalance encodeBalance
+  simp only [List.append_assoc]
+  rw [decode_encode_append b (by omega)]
+  simp only [List.drop_left]
+  rw [decode_encode_append t (by omega)]
+  simp only [Nat.not_le.mpr h1, Nat.not_le.mpr h2, if_false]
+  have : (Varint.encode b ++ (Varint.encode t ++ (Varint.encode a ++ rest))).drop
+      ((Varint.encode b).length + (Varint.encode t).length) = Varint.encode a ++ rest := by
+    rw [← List.drop_drop, List.drop_left, List.drop_left]
+  rw [this, decode_encode_append a h3]
+  simp [Nat.add_assoc]
+
+theorem encodeBalance_length_pos (x : (Nat × Nat) × Nat) : 0 < (encodeBalance x).length := by
+  unfold encodeBalance
+  have := encode_length_pos x.1.1
+  simp only [List.length_append]; omega
+
+theorem decodeBalances_encode (l : List ((Nat × Nat) × Nat)) (h : ∀ x ∈ l, balanceOk x) :
+    decodeBalances (encodeBalances l) = .ok l := by
+  induction l with
+  | nil => rw [decodeBalances]; simp [encodeBalances]
+  | cons x l ih =>
+    have hx := h x (by simp)
+    have ih' := ih (fun y hy => h y (by simp [hy]))
+    have hcons : encodeBalances (x :: l) = encodeBalance x ++ encodeBalances l := by
+      simp [encodeBalances, List.flatMap_cons]
+    rw [decodeBalances, hcons]
+    have hne : ¬ ((encodeBalance x ++ encodeBalances l).length = 0) := by
+      have := encodeBalance_length_pos x
+      simp only [List.length_append]; omega
+    simp only [hne, dite_false]
+    split
+    · rename_i e he; rw [decodeBalance_encode x hx] at he; cases he
+    · rename_i s he; rw [decodeBalance_encode x hx] at he; cases he
+    · rename_i y len he
+      rw [decodeBalance_encode x hx] at he
+      injection he with he; injection he with h1 h2
+      subst h1; subst h2
+      rw [List.drop_left, ih']
+
+/-! ### merged, and the entries of the special outpoints -/
+
+theorem bind_ok {α β : Type} (a : α) (g : α → Outcome β) : (Outcome.ok a >>= g) = g a := rfl
+theorem pure_eq {α : Type} (a : α) : (pure a : Outcome α) = .ok a := rfl
+
+/-- entries written for the lost-sats and unbound pseudo-outputs -/
+def Special (f : Flags) (e : Entry) : Prop :=
+  e.script = [] ∧ (f.sats = false → e.value = 0) ∧ (f.sats = true → e.ranges.length % 11 = 0)
+
+def mergeEntries (a b : Entry) : Entry :=
+  ⟨0, a.ranges ++ b.ranges, [], a.inscriptions ++ b.inscriptions⟩
+
+theorem merged_layout (f : Flags) (a b : Entry) (ha : Special f a) (hb : Special f b)
+    (hla : (layout f a).length < 2 ^ 64) (hlb : (layout f b).length < 2 ^ 64) :
+    merged f (layout f a) (layout f b) = .ok (layout f (mergeEntries a b)) := by
+  obtain ⟨sa, va, ra⟩ := ha
+  obtain ⟨sb, vb, rb⟩ := hb
+  have pa := parse_layout f a (fun h => by rw [va h]; decide) ra hla
+  have pb := parse_layout f b (fun h => by rw [vb h]; decide) rb hlb
+  unfold merged
+  rw [pa, pb]
+  simp only [bind_ok]
+  obtain ⟨s, ad, i⟩ := f
+  cases s
+  · have va' := va rfl
+    have vb' := vb rfl
+    cases ad <;> cases i <;>
+      simp [view, totalValue, scriptPubkey, inscriptionsRaw, assertThat, bind_ok, pure_eq,
+        pushValue, pushScriptPubkey, pushInscriptions, advance, Buf.new, asRef, layout, mergeEntries,
+        va', vb', sa, sb, encodeInscriptions_append]
+  · have ra' := ra rfl
+    have rb' := rb rfl
+    have hsum : (a.ranges.length + b.ranges.length) / 11 * 11 = a.ranges.length + b.ranges.length := by omega
+    cases ad <;> cases i <;>
+      simp [view, scriptPubkey, inscriptionsRaw, satRanges, assertThat, bind_ok, pure_eq,
+        pushSatRanges, pushScriptPubkey, pushInscriptions, advance, Buf.new, asRef, layout, mergeEntries,
+        sa, sb, encodeInscriptions_append, hsum]
+
+theorem special_merge (f : Flags) (a b : Entry) (ha : Special f a) (hb : Special f b) :
+    Special f (mergeEntries a b) := by
+  obtain ⟨_, _, ra⟩ := ha
+  obtain ⟨_, _, rb⟩ := hb
+  refine ⟨rfl, fun _ => rfl, fun h => ?_⟩
+  have := ra h; have := rb h
+  simp only [mergeEntries, List.length_append]; omega
+
+theorem empty_eq_layout (f : Flags) : Utxo.empty f = .ok (layout f ⟨0, [], [], []⟩) := by
+  obtain ⟨s, a, i⟩ := f
+  cases s <;> cases a <;> cases i <;>
+    simp [Utxo.empty, emptyBuf, pushSatRanges, pushValue, pushScriptPubkey, advance, Buf.new, asRef,
+      layout, encodeInscriptions]
+
+theorem layout_push_inscription (f : Flags) (e : Entry) (i : Nat × Nat) (hf : f.inscriptions = true) :
+    layout f { e with inscriptions := e.inscriptions ++ [i] } = layout f e ++ encodeInscription i := by
+  simp [layout, hf, encodeInscriptions, List.append_assoc]
 
 end Ord.Utxo
